@@ -287,6 +287,18 @@ pub fn run(tier: Tier) -> i32 {
             r.extend(std::iter::repeat(b'E').take(early));
             cases.push(Case { name: format!("CONNECT followed at once by {early} data bytes"), greeting: g.clone(), request: Some(r), cuts: vec![], expect_method_ok: true, expect_tunnel: Some(a4), truncated: false, gap_s: 0 });
         }
+        // early data with a forced TCP cut around the hand-over from the request parser to the relay
+        for early in [3usize, 700] {
+            let mut r = good_req.clone();
+            r.extend((0..early).map(|i| b'a' + (i % 23) as u8));
+            let end = g.len() + good_req.len();
+            for cut in [end - 1, end, end + 1, end + early / 2, end + early - 1] {
+                if cut >= g.len() + r.len() || cut == 0 {
+                    continue;
+                }
+                cases.push(Case { name: format!("CONNECT followed at once by {early} data bytes, cut at {cut} (request ends at {end})"), greeting: g.clone(), request: Some(r.clone()), cuts: vec![cut], expect_method_ok: true, expect_tunnel: Some(a4), truncated: false, gap_s: 0 });
+            }
+        }
         // the same behind a request that cannot succeed (refusing port, unresolvable name): failure reply only
         for early in [1usize, 700] {
             let mut r = req(5, 1, 0, 1, &[127, 0, 0, 1], w.closed_port);
